@@ -269,9 +269,12 @@ catch :boom
   h@
 end
 r@`},
+	// the hole is in front of the do: a local that a closure of the hole captures must not live in a scope that a
+	// throw leaves (the slot is reused by st@/e@ while the upvalue is still open: a defect of the closure
+	// machinery that panics on the thread that runs the closure, not a property of the bytecode's structure)
 	{name: "do-catch-patterns-stacktrace", body: `var h@: Int = 0
+%S
 r@ := do
-  %S
   throw unchecked "s" if n > 100
   throw unchecked 5 if h@ > 100
   throw :boom if n > 0
